@@ -85,6 +85,11 @@ CHECKS = {
          "Whether a fully valid introduction is accepted is only used as a liveness guard of the driver (the property is one-directional); messages pipelined behind a refused one may still be processed before the close lands (observed, outside the statement). MCSync model-checks the protocol the gate protects.",
          "TLA+ decision function evaluated by TLC on records of a real node driven over TCP; TLC model checking of the sync protocol",
          "DESIGN.md 4.5, 5 C25, 9"),
+ "C26": ("pex", "model_checking",
+         "Pex.tla: peers are records keyed by the sanitised address; AddPeer (invalid -> error; known -> seen; room -> added; full -> evict the longest-unseen UNTRUSTED peer only if unseen for a day, else error), AddPeers (only valid addresses, nothing removed, never beyond Max, choice of subset open), removal, trust, retry counters, the periodic clean-up (untrusted and unseen beyond the expiration), restart. MCPex checks on every interleaving of a small universe that only valid addresses are ever keys, that additions never grow the list beyond Max and that trusted peers leave only by explicit removal. Seeded operation sequences on a real pex.Pex (overlay in package pex, peers.json in a scratch directory, ages set through LastSeen, restarts) are recorded step by step; TLC checks result and post list of every operation.",
+         "Validity is judged on the parsed value (1.2.3.4:06000 is kept under that key); private IPv4 ranges count as global unicast as in Go's net package; a custom peers file at start-up is outside the claim.",
+         "TLA+ spec + TLC exhaustive model checking; record->validate of a real Pex by TLC",
+         "DESIGN.md 4.6, 5 C26, 9"),
  "C29": ("fn", "model_checking",
          "Fn.tla defines page bounds over exact naturals; MCPaging walks pages 1..N+2 for every list length <= 25 and page size <= 7 and checks that they concatenate to the list exactly once, that N is the reported count and later pages are empty. The real PageIndex.Cal and txnHashesContainer.Pagination (de-duplicated lists, page numbers up to 2^64-1 including wrap-around values) are recorded and TLC checks every record against the same definitions.",
          "The filter/sort steps before paging are not modelled (ordering and de-duplication are taken from the container); TLC/SANY/Json trusted.",
